@@ -12,6 +12,7 @@ import (
 	"regexp"
 	"strings"
 	"sync"
+	"time"
 
 	"mosn.io/api"
 	v2 "mosn.io/mosn/pkg/config/v2"
@@ -223,7 +224,13 @@ func main() {
 	cases := flag.String("cases", "", "cases file")
 	out := flag.String("trace", "", "trace output")
 	lookers := flag.Int("lookers", 8, "goroutines for the concurrent lookups of history cases")
+	mode := flag.String("mode", "replay", "replay | scan (lookups held inside the rule list while the route API runs)")
+	graceMs := flag.Int("grace", 15, "scan mode: how long to wait for the updates before the held lookup goes on (ms)")
 	flag.Parse()
+	if *mode == "scan" {
+		runScan(*cases, *out, time.Duration(*graceMs)*time.Millisecond)
+		return
+	}
 	rng := rand.New(rand.NewSource(vh.Seed()))
 	tr := vh.NewTrace(*out)
 	defer tr.Close()
